@@ -7,6 +7,7 @@ import (
 	"math"
 	"os"
 	"path/filepath"
+	"runtime/pprof"
 	"sort"
 	"strings"
 
@@ -166,6 +167,59 @@ func genWide(r *gen.Rand) []seriesIn {
 	return out
 }
 
+// cardKs: label cardinalities around the reader's sampling constant (index.symbolFactor = 32: the
+// in-memory postings offset table keeps every 32nd value of a name plus the last one).
+var cardKs = [][]int{{1, 2, 31, 32, 33, 34}, {63, 64, 65, 66}, {96, 97}}
+
+// genCard: a block in which label "kNNN" has exactly NNN distinct values, for every NNN of ks0
+// (plus `extra` random ones): series i carries kNNN = value(i mod NNN). Every series has one real
+// XOR chunk with one sample, so that a block querier can be used as well. (Three blocks instead
+// of one with all twelve cardinalities: the Coq model reader costs ~1 ms per read on a 25 KB index.)
+func genCard(r *gen.Rand, ks0 []int, extra int) []seriesIn {
+	ks := append([]int{}, ks0...)
+	for i := 0; i < extra; i++ {
+		ks = append(ks, 1+r.Intn(ks0[len(ks0)-1]+3))
+	}
+	maxK := 0
+	for _, k := range ks {
+		if k > maxK {
+			maxK = k
+		}
+	}
+	n := maxK + r.Intn(8)
+	var out []seriesIn
+	seenK := map[int]bool{}
+	for i := 0; i < n; i++ {
+		var ls [][2]string
+		for k := range seenK {
+			delete(seenK, k)
+		}
+		for _, k := range ks {
+			if seenK[k] {
+				continue
+			}
+			seenK[k] = true
+			j := i % k
+			pre := "a"
+			if j >= (k+1)/2 {
+				pre = "b"
+			}
+			ls = append(ls, [2]string{fmt.Sprintf("k%03d", k), fmt.Sprintf("%s%03d", pre, j)})
+		}
+		sort.Slice(ls, func(a, b int) bool { return ls[a][0] < ls[b][0] })
+		c := chunkenc.NewXORChunk()
+		app, err := c.Appender()
+		if err != nil {
+			panic(err)
+		}
+		t := int64(1000 + i)
+		app.Append(0, t, float64(i))
+		out = append(out, seriesIn{Labels: ls, Chunks: []chunkIn{{Min: t, Max: t, Enc: byte(chunkenc.EncXOR), Data: append([]byte{}, c.Bytes()...)}}})
+	}
+	sort.Slice(out, func(i, j int) bool { return labels.Compare(mkLabels(out[i].Labels), mkLabels(out[j].Labels)) < 0 })
+	return out
+}
+
 func genSamples(r *gen.Rand, nseries int, t0 int64, maxSamples int) []sampleSeries {
 	seen := map[string]bool{}
 	var out []sampleSeries
@@ -274,7 +328,7 @@ func (rn *runner) emit(r *gen.Rand, route, dir string, input []seriesIn, expecte
 	if err != nil {
 		d.OpenErr = err.Error()
 		d.Shape = route + "-open-error"
-		rn.cf.Add(curPool.wrap(fmt.Sprintf("mkCase %s %s\n %s\n %s\n %s\n []", gallina.Z(int64(id)), gin, pkRaw(rb.Index), gallina.List(gsegs), rerr(classify(err)))))
+		rn.cf.Add(curPool.wrap(fmt.Sprintf("mkCase %s %s\n %s\n %s\n %s\n (mkQ [] [] [] [] [] []) []", gallina.Z(int64(id)), gin, pkRaw(rb.Index), gallina.List(gsegs), rerr(classify(err)))))
 		rn.meta.Case(id, d)
 		rn.meta.Evaluations++
 		rn.meta.Hit(route + "/open-error")
@@ -305,13 +359,76 @@ func (rn *runner) emit(r *gen.Rand, route, dir string, input []seriesIn, expecte
 		}
 	}
 
-	// alterations
+	// the further read APIs on the undamaged block
+	maxNames := 3
+	if route == "card" {
+		maxNames = 1 << 20
+	}
+	pr := makeProbes(r, o, maxNames, route == "card")
+	baseline := suite(b, o, pr)
+	gq := gQueries(o, pr, baseline)
+	rn.meta.Evaluations += len(baseline)
+	for _, a := range baseline {
+		if a.A.Err != "" {
+			rn.meta.Hit("query-error/" + groupNames[a.Group])
+		}
+	}
+	if msg := sortedConsistency(baseline); msg != "" {
+		rn.meta.GoViol = append(rn.meta.GoViol, gallina.GoViolation{ID: fmt.Sprint(id), Shape: "sorted-label-values-with-matchers", What: msg})
+	}
+	for _, lv := range o.LVals {
+		switch k := len(lv); {
+		case k%32 == 1 && k > 1:
+			rn.meta.Hit("label-cardinality=32k+1")
+		case k%32 == 0 && k > 0:
+			rn.meta.Hit("label-cardinality=32k")
+		}
+	}
+
+	// alterations. A re-opened damaged block that answers some API differently from the undamaged
+	// block without an error violates the property; all such alterations of a case are reported as
+	// ONE go_violation whose shape joins the kinds seen with '+' (the driver treats a case as a known
+	// finding only if every part is listed):
+	//   labelnames-matchers-ignores-postings-error  a damaged postings list makes LabelNames(matchers)
+	//       answer with fewer names and no error (index.Reader.LabelNamesFor never looks at
+	//       postings.Err(); PostingsForLabelMatching reports the checksum error lazily) while every
+	//       other API reports the error or answers as before
+	//   alteration-different-answer                 anything else
+	diffKinds := map[string]int{}
+	diffExample := map[string]string{}
+	noteDiff := func(a altRec, where string) {
+		kind := "alteration-different-answer"
+		if a.File == -3 && a.Diff == 1<<gLabelNamesM && a.ErrClass != "" {
+			kind = "labelnames-matchers-ignores-postings-error"
+		}
+		diffKinds[kind]++
+		if diffExample[kind] == "" {
+			diffExample[kind] = fmt.Sprintf("%s byte %d := %d: %s", where, a.Pos, a.Byte, a.DiffWhat)
+		}
+	}
+	flushDiffs := func() {
+		if len(diffKinds) == 0 {
+			return
+		}
+		var ks, ex []string
+		for k := range diffKinds {
+			ks = append(ks, k)
+		}
+		sort.Strings(ks)
+		for _, k := range ks {
+			ex = append(ex, fmt.Sprintf("%s (%d alterations), e.g. %s", k, diffKinds[k], diffExample[k]))
+		}
+		shape := strings.Join(ks, "+")
+		rn.meta.GoViol = append(rn.meta.GoViol, gallina.GoViolation{ID: fmt.Sprint(id), Shape: shape, What: strings.Join(ex, "; ")})
+		d.Shape = shape
+	}
 	var alts []string
 	if sweep {
 		variants := 1
 		if rn.f.Tier == "thorough" {
 			variants = 3
 		}
+		defer withIndex(dir, rb.Index)
 		add := func(a altRec, coll string, start, n, end int) {
 			a.Part = part(a.Pos, start, n, end)
 			alts = append(alts, a.gallina())
@@ -319,6 +436,14 @@ func (rn *runner) emit(r *gen.Rand, route, dir string, input []seriesIn, expecte
 			kind := "series"
 			if a.File >= 0 {
 				kind = "chunk"
+			}
+			if a.Diff != 0 {
+				for g := 0; g < nGroups; g++ {
+					if a.Diff&(1<<uint(g)) != 0 {
+						rn.meta.Hit("alt/DIFFERENT-ANSWER/" + groupNames[g])
+					}
+				}
+				noteDiff(a, "series entry")
 			}
 			switch {
 			case a.IsErr:
@@ -361,8 +486,8 @@ func (rn *runner) emit(r *gen.Rand, route, dir string, input []seriesIn, expecte
 						continue
 					}
 					nb := newByte(r, rb.Index[pos], (pos+v*3+int(r.Intn(2)))%6)
-					a, coll := alterIndex(rb, o, pos, nb, s.Ref)
-					add(a, coll, start, n, end)
+					a := alterIndex(dir, rb, o, pr, baseline, -1, pos, nb, s.Ref, nil)
+					add(a, "", start, n, end)
 					rn.altLeft--
 				}
 			}
@@ -383,6 +508,66 @@ func (rn *runner) emit(r *gen.Rand, route, dir string, input []seriesIn, expecte
 			}
 		}
 	}
+	if sweep {
+		// the other CRC-protected sections of the index: symbol table, postings offset table, TOC
+		// (the re-open must fail, or every API must answer as before) and postings lists
+		secs := sections(rb.Index)
+		per := 4
+		if rn.f.Tier == "thorough" {
+			per = 24
+		}
+		nLists := 0
+		for si := range secs {
+			sec := &secs[si]
+			kind := -2
+			if sec.Kind == "postings" {
+				kind = -3
+				nLists++
+				if nLists > 4 && !r.Chance(1, 4) {
+					continue
+				}
+			}
+			positions := []int{sec.Start, sec.Start + 3, sec.End - 1, sec.End - 4}
+			k := per
+			if kind == -3 {
+				k = per / 3
+			}
+			if sec.Kind == "toc" && rn.f.Tier == "thorough" {
+				positions = positions[:0]
+				for p := sec.Start; p < sec.End; p++ {
+					positions = append(positions, p)
+				}
+				k = 0
+			}
+			for j := 0; j < k; j++ {
+				positions = append(positions, sec.Start+r.Intn(sec.End-sec.Start))
+			}
+			for _, pos := range positions {
+				nb := newByte(r, rb.Index[pos], r.Intn(6))
+				a := alterIndex(dir, rb, o, pr, baseline, kind, pos, nb, uint64(sec.Start), sec)
+				if kind == -2 {
+					a.Ref = 0
+				}
+				alts = append(alts, a.gallina())
+				rn.meta.Evaluations++
+				outcome := "same-answers"
+				switch {
+				case a.Diff != 0:
+					outcome = "DIFFERENT-ANSWER"
+					for g := 0; g < nGroups; g++ {
+						if a.Diff&(1<<uint(g)) != 0 {
+							rn.meta.Hit("alt/DIFFERENT-ANSWER/" + groupNames[g])
+						}
+					}
+					noteDiff(a, sec.Kind)
+				case a.IsErr:
+					outcome = "error"
+				}
+				rn.meta.Hit("alt/" + sec.Kind + "/" + outcome)
+			}
+		}
+	}
+	flushDiffs()
 	d.Alts = len(alts)
 	if d.Series >= 2 && d.Chunks >= 1 {
 		rn.meta.Nontrivial++
@@ -390,7 +575,7 @@ func (rn *runner) emit(r *gen.Rand, route, dir string, input []seriesIn, expecte
 	rn.meta.Nontrivial += len(alts)
 	rn.meta.Evaluations++
 	galts := gallina.List(alts) // ia/ca take primitive ints: their arguments are parsed in uint63_scope
-	rn.cf.Add(curPool.wrap(fmt.Sprintf("mkCase %s %s\n %s\n %s\n (ROk %s)\n %s", gallina.Z(int64(id)), gin, pkRaw(rb.Index), gallina.List(gsegs), o.gallina(), galts)))
+	rn.cf.Add(curPool.wrap(fmt.Sprintf("mkCase %s %s\n %s\n %s\n (ROk %s)\n %s\n %s", gallina.Z(int64(id)), gin, pkRaw(rb.Index), gallina.List(gsegs), o.gallina(), gq, galts)))
 	rn.meta.Case(id, d)
 }
 
@@ -461,6 +646,11 @@ func expectedOf(sets ...[]sampleSeries) map[string][]sample {
 
 func main() {
 	f := gallina.ParseFlags()
+	if pf := os.Getenv("C24_PROF"); pf != "" {
+		fh, _ := os.Create(pf)
+		pprof.StartCPUProfile(fh)
+		defer pprof.StopCPUProfile()
+	}
 	scratch, err := os.MkdirTemp(f.Out, "c24_")
 	if err != nil {
 		panic(err)
@@ -471,18 +661,20 @@ func main() {
 	meta := gallina.NewMeta("C24", f.Seed, f.Tier)
 	meta.Rule = "one evaluation = one block written+opened+fully read, or one single-byte alteration re-opened and read; " +
 		"non-trivial = blocks with >= 2 series and >= 1 chunk, plus every alteration (each is a distinct (block, file, position, value)); " +
-		"routes: direct (index.Writer+chunks.Writer, arbitrary chunk payloads, small segment sizes, int64 edge times), wide (> 32 values of one label), " +
+		"routes: direct (index.Writer+chunks.Writer, arbitrary chunk payloads, small segment sizes, int64 edge times), wide (> 32 values of one label), card (label names with exactly 1,2,31,32,33,34,63,64,65,66,96,97 values), " +
 		"blockwriter (head + LeveledCompactor.Write), compact (LeveledCompactor.Compact of two blocks, small segments); " +
-		"alterations: every byte of every series entry and chunk record of the small blocks (length prefix, body, crc), replacement chosen among bit flip / ^0x80 / +1 / -1 / 0 / random"
+		"alterations: every byte of every series entry and chunk record of the small blocks (length prefix, body, crc) plus sampled bytes of the symbol table, postings offset table, TOC and postings lists, replacement chosen among bit flip / ^0x80 / +1 / -1 / 0 / random; after an index alteration the block is re-opened with tsdb.OpenBlock and every read API is compared with the undamaged block; " +
+		"every block additionally answers SortedLabelValues, PostingsForLabelMatching, PostingsForAllLabelValues, PostingsForMatchers, Querier.Select, LabelNames/LabelValues with matchers (each API call counted as an evaluation)"
 	cf := &gallina.CaseFile{Dir: f.Out, Type: "case", PerShard: 14,
 		Preamble: "From Coq Require Import List NArith ZArith Uint63.\nFrom Verif Require Import lib.Int64 lib.Bytes model.BlockFmt corr.CorrC24.\nImport ListNotations.\nOpen Scope N_scope.\n",
 		Footer:   gallina.StdFooter}
-	rn := &runner{f: f, meta: meta, cf: cf, scratch: scratch, altLeft: f.Count(3000, 60000)}
+	rn := &runner{f: f, meta: meta, cf: cf, scratch: scratch, altLeft: f.Count(2200, 60000)}
 
-	nDirect := f.Count(32, 120)
+	nDirect := f.Count(24, 120)
 	rn.perBlock = rn.altLeft / (f.Count(14, 30) + 5)
 	nSweep := f.Count(14, 30) // small blocks whose every entry/record byte is altered
-	nWide := f.Count(2, 6)
+	nWide := f.Count(0, 6) // the card blocks cover > 32 values in the quick tier
+	nCard := f.Count(3, 9)
 	nBW := f.Count(8, 30)
 	nCompact := f.Count(4, 20)
 	ci := 0
@@ -541,6 +733,19 @@ func main() {
 			panic(err)
 		}
 		rn.emit(r, "wide", dir, in, nil, 100, false, idx)
+		os.RemoveAll(dir)
+	}
+	for i := 0; i < nCard; i++ {
+		r, dir, idx := next()
+		in := genCard(r, cardKs[i%len(cardKs)], i/len(cardKs))
+		segSize := int64(0)
+		if i%2 == 1 {
+			segSize = 400
+		}
+		if err := writeDirect(dir, in, segSize); err != nil {
+			panic(err)
+		}
+		rn.emit(r, "card", dir, nil, nil, segSize, false, idx) // no input copy: consistency and the query spec judge it
 		os.RemoveAll(dir)
 	}
 	for i := 0; i < nBW; i++ {
